@@ -810,7 +810,8 @@ def collect_as_lists(
             continue
         # Translate original output names to renamed names
         renamed_values = node.map_outputs_from_original(result.values)
+        # Keep every list aligned with the inputs: an item that did not produce
+        # an output (e.g. it took another branch) contributes a None placeholder
         for name in node.outputs:
-            if name in renamed_values:
-                collected[name].append(renamed_values[name])
+            collected[name].append(renamed_values.get(name))
     return collected
